@@ -15,8 +15,16 @@ for id in $ids; do
     o=/tmp/mutout/mx-$id; rm -rf $o; mkdir -p $o
     VERIF_REPO=$wt VERIF_OUT=$o /verif/check $prop quick > $o/log 2>&1; rc=$?
     nv=$(grep -c "^VIOLATION property=$prop " $o/log)
-    echo "| $id | $prop | $([ $rc = 1 ] && echo yes || echo "NO (exit $rc)") | $nv |" >> $out.tmp
-    echo "$id rc=$rc violations=$nv"
+    note=""
+    if [ $rc != 1 ]; then
+      # not caught by its own property's check: try the checks recorded as catching it (meta.json caught_by)
+      for alt in $(python3 -c "import json;print(' '.join(x for x in json.load(open('/verif/seeded/$id/meta.json')).get('caught_by',[]) if x!='$prop'))"); do
+        VERIF_REPO=$wt VERIF_OUT=$o /verif/check $alt quick > $o/log.$alt 2>&1; arc=$?
+        [ $arc = 1 ] && note="$note; caught by $alt ($(grep -c "^VIOLATION property=$alt " $o/log.$alt) violations)"
+      done
+    fi
+    echo "| $id | $prop | $([ $rc = 1 ] && echo yes || echo "NO (exit $rc)$note") | $nv |" >> $out.tmp
+    echo "$id rc=$rc violations=$nv$note"
   else
     echo "| $id | $prop | patch does not apply | - |" >> $out.tmp
   fi
